@@ -139,6 +139,8 @@ def make_conn_class(h):
             self.close_calls += 1
             self.is_closed = True
             h.on_close(self, sys._getframe(1).f_code.co_name)
+            if caller == 'shutdown' and hasattr(h, 'shutdown_close'):
+                h.shutdown_close(self, sys._getframe(1))
 
         def push(self, data):
             self.sent.append(data)
